@@ -512,6 +512,17 @@ func ruleGrammarReads(c *Ctx, r *Rep, rule, method string) {
 			continue
 		}
 		rd := fieldsRead(fn, gt.Named)
+		// ... or in a private helper of the method (`e.populated()` picks the alternative that is set)
+		for _, g := range c.opFuncs(fn) {
+			if g == fn {
+				continue
+			}
+			for k, v := range fieldsRead(g, gt.Named) {
+				if v {
+					rd[k] = true
+				}
+			}
+		}
 		for _, f := range gt.Fields {
 			if !f.Captured {
 				continue
@@ -617,6 +628,9 @@ func evalClosure(c *Ctx) []*ssa.Function {
 					if cal := ci.Common().StaticCallee(); cal != nil && c.inModule(cal) {
 						add(cal)
 					}
+					for _, impl := range c.privIfaceImpls(ci) {
+						add(impl)
+					}
 				}
 			}
 		}
@@ -663,7 +677,10 @@ func ruleC07_5(c *Ctx, r *Rep) {
 							bad = "calls " + n
 						}
 					} else if com.IsInvoke() {
-						bad = "calls an interface method (" + com.Method.Name() + ")"
+						// a private interface of the package dispatches to methods that are judged here themselves
+						if len(c.privIfaceImpls(x)) == 0 {
+							bad = "calls an interface method (" + com.Method.Name() + ")"
+						}
 					} else if cal == nil {
 						if _, isB := com.Value.(*ssa.Builtin); !isB {
 							bad = "calls a function value"
